@@ -9,6 +9,7 @@ malformed stored secrets.
 import base64
 import hashlib
 import os
+import random
 
 from mc import core
 from mc.ref import aes as RA
@@ -231,7 +232,10 @@ def _roundtrip(job, ctx):
                 ctx.violation(fp + what, "key %s method %s plaintext %s x %d: %s" % (job["key"], method, pname, n, msg), case, size=n)
             try:
                 with kf as ctxk:
+                    # (the application re-seeds the shared pseudo-random generator whenever it likes: IVs do not come from it)
+                    random.seed(8080)
                     sv = ctxk.encrypt(p, method=method)
+                    random.seed(8080)
                     sv2 = ctxk.encrypt(p, method=method)
                     back_same = ctxk.decrypt(sv)
             except Exception as exc:  # noqa
